@@ -7,8 +7,12 @@
    stdin and discarding stdout/stderr (internal/sys/stdio.go), no arguments, no environment, no pre-opened
    directories, no listeners.
    The host ([host_env]) is consulted by the semantics ONLY through ctx components that say so.
-   [wasi_step] gives the WASI calls of imports/wasi_snapshot_preview1/{clock,random,args,environ,poll,sched,fs}.go
-   the trace (errno, output bytes) they produce over a ctx.
+   [wasi_step] gives ALL 46 functions of imports/wasi_snapshot_preview1/{args,environ,clock,random,poll,sched,fs,sock,proc}.go
+   the trace (errno, output bytes) they produce over a ctx, including the descriptor table ([c_fds]: the open descriptor
+   numbers; under the default configuration 0, 1, 2, and fd_close is the only call that changes it) and proc_exit
+   ([c_exited]: afterwards every call is refused with the exit code).  Calls on descriptors the model does not describe
+   (pre-opened directories, listeners, host-backed stdio: never present under the default configuration) answer the
+   explicit marker [unmodelled]; DefaultCtxP.hermetic_total shows it never occurs in a hermetic context.
    The fixed-seed stream is abstract: [R k] is its k-th byte (math/rand's Read is positional: the k-th byte
    does not depend on how reads are chunked). Constants come from coq/Gen (folded from the working tree).
    No proofs in this file. *)
@@ -83,6 +87,8 @@ Record ctx := {
   c_yield_real : bool;
   c_preopens : list bytes;
   c_listeners : nat;
+  c_fds : list Z;                    (* the descriptor table: numbers of the open descriptors *)
+  c_exited : option Z;               (* Some code: proc_exit closed the instance *)
   (* effects on the host accumulated by the instance *)
   c_emitted : bytes;                 (* bytes that reached the host's stdout/stderr *)
   c_slept : Z                        (* nanoseconds really slept *)
@@ -133,6 +139,9 @@ Definition mk_ctx (m : module_config) (h : host_env) : option ctx :=
     c_yield_real := m_osyield m;
     c_preopens := of_src (m_mounts m) (h_dirs h) [];
     c_listeners := if m_listeners m then h_listeners h else O;
+    (* InitFSContext: stdin, stdout, stderr, then the pre-opens, then the listeners, numbered from 0 *)
+    c_fds := map Z.of_nat (seq 0 (3 + length (of_src (m_mounts m) (h_dirs h) []) + (if m_listeners m then h_listeners h else O)));
+    c_exited := None;
     c_emitted := [];
     c_slept := 0
   |}.
@@ -145,11 +154,190 @@ Variable R : nat -> Z.       (* the byte stream of platform.NewFakeRandSource (m
 Fixpoint le_bytes (n : nat) (v : Z) : bytes :=
   match n with O => [] | S k => (v mod 256) :: le_bytes k (v / 256) end.
 
+(* one subscription of poll_oneoff: a relative/absolute clock, fd_read, fd_write, or an unknown event type *)
+Inductive sub :=
+| SClock (timeout flags userdata : Z)
+| SFdRead (fd userdata : Z)
+| SFdWrite (fd userdata : Z)
+| SOther (ty userdata : Z).
+
+(* every function of wasi_snapshot_preview1 (the pointer arguments are fixed by the harness and valid: EFAULT paths
+   belong to C15).  Descriptor, flag and size arguments are the raw i32/i64 values the guest passes. *)
+Inductive call :=
+| ClockTimeGet (id precision : Z)
+| ClockResGet (id : Z)
+| RandomGet (n : nat)
+| ArgsSizesGet
+| ArgsGet
+| EnvironSizesGet
+| EnvironGet
+| FdRead (fd : Z) (lens : list nat)                 (* one iovec per length *)
+| FdWrite (fd : Z) (chunks : list bytes)            (* one ciovec per chunk *)
+| FdPread (fd : Z) (lens : list nat) (off : Z)
+| FdPwrite (fd : Z) (chunks : list bytes) (off : Z)
+| FdPrestatGet (fd : Z)
+| FdPrestatDirName (fd len : Z)
+| FdFdstatGet (fd : Z)
+| FdFdstatSetFlags (fd flags : Z)
+| FdFdstatSetRights (fd base inheriting : Z)
+| FdFilestatGet (fd : Z)
+| FdFilestatSetSize (fd size : Z)
+| FdFilestatSetTimes (fd atim mtim fstflags : Z)
+| FdAdvise (fd off len advice : Z)
+| FdAllocate (fd off len : Z)
+| FdClose (fd : Z)
+| FdDatasync (fd : Z)
+| FdSync (fd : Z)
+| FdReaddir (fd buflen cookie : Z)
+| FdRenumber (from to : Z)
+| FdSeek (fd off whence : Z)
+| FdTell (fd : Z)
+| PollClock (clockid timeout flags userdata : Z)
+| Poll (subs : list sub)
+| SchedYield
+| PathOpen (fd : Z) (path : bytes)
+| PathCreateDirectory (fd : Z) (path : bytes)
+| PathFilestatGet (fd lflags : Z) (path : bytes)
+| PathFilestatSetTimes (fd lflags : Z) (path : bytes) (atim mtim fstflags : Z)
+| PathLink (oldfd oldflags : Z) (oldpath : bytes) (newfd : Z) (newpath : bytes)
+| PathReadlink (fd : Z) (path : bytes) (buflen : Z)
+| PathRemoveDirectory (fd : Z) (path : bytes)
+| PathRename (fd : Z) (oldpath : bytes) (newfd : Z) (newpath : bytes)
+| PathSymlink (oldpath : bytes) (fd : Z) (newpath : bytes)
+| PathUnlinkFile (fd : Z) (path : bytes)
+| ProcExit (code : Z)
+| ProcRaise (sig : Z)
+| SockAccept (fd flags : Z)
+| SockRecv (fd : Z) (lens : list nat) (riflags : Z)
+| SockSend (fd : Z) (chunks : list bytes) (siflags : Z)
+| SockShutdown (fd how : Z).
+
+Definition result := (Z * bytes)%type.      (* WASI errno, bytes written to the result areas *)
+
+(* pseudo errno values of the trace (never WASI errno values, which are 0..76) *)
+Definition res_exit : Z := -1.               (* proc_exit: the call does not return; bytes = the exit code *)
+Definition res_closed : Z := -2.             (* a call into an instance that has exited is refused; bytes = the exit code *)
+Definition res_unmodelled : Z := -3.         (* the model does not describe this call in this context *)
+Definition unmodelled : result := (res_unmodelled, []).
+
+Definition with_wall (c : ctx) (w : clock) : ctx :=
+  {| c_args := c_args c; c_environ := c_environ c; c_stdin := c_stdin c; c_stdout_host := c_stdout_host c;
+     c_stderr_host := c_stderr_host c; c_rand := c_rand c; c_wall := w; c_wall_res := c_wall_res c; c_mono := c_mono c;
+     c_mono_res := c_mono_res c; c_sleep_real := c_sleep_real c; c_yield_real := c_yield_real c; c_preopens := c_preopens c;
+     c_listeners := c_listeners c; c_fds := c_fds c; c_exited := c_exited c; c_emitted := c_emitted c; c_slept := c_slept c |}.
+Definition with_mono (c : ctx) (w : clock) : ctx :=
+  {| c_args := c_args c; c_environ := c_environ c; c_stdin := c_stdin c; c_stdout_host := c_stdout_host c;
+     c_stderr_host := c_stderr_host c; c_rand := c_rand c; c_wall := c_wall c; c_wall_res := c_wall_res c; c_mono := w;
+     c_mono_res := c_mono_res c; c_sleep_real := c_sleep_real c; c_yield_real := c_yield_real c; c_preopens := c_preopens c;
+     c_listeners := c_listeners c; c_fds := c_fds c; c_exited := c_exited c; c_emitted := c_emitted c; c_slept := c_slept c |}.
+Definition with_rand (c : ctx) (r : rnd) : ctx :=
+  {| c_args := c_args c; c_environ := c_environ c; c_stdin := c_stdin c; c_stdout_host := c_stdout_host c;
+     c_stderr_host := c_stderr_host c; c_rand := r; c_wall := c_wall c; c_wall_res := c_wall_res c; c_mono := c_mono c;
+     c_mono_res := c_mono_res c; c_sleep_real := c_sleep_real c; c_yield_real := c_yield_real c; c_preopens := c_preopens c;
+     c_listeners := c_listeners c; c_fds := c_fds c; c_exited := c_exited c; c_emitted := c_emitted c; c_slept := c_slept c |}.
+Definition with_stdin (c : ctx) (s : stdin_t) : ctx :=
+  {| c_args := c_args c; c_environ := c_environ c; c_stdin := s; c_stdout_host := c_stdout_host c;
+     c_stderr_host := c_stderr_host c; c_rand := c_rand c; c_wall := c_wall c; c_wall_res := c_wall_res c; c_mono := c_mono c;
+     c_mono_res := c_mono_res c; c_sleep_real := c_sleep_real c; c_yield_real := c_yield_real c; c_preopens := c_preopens c;
+     c_listeners := c_listeners c; c_fds := c_fds c; c_exited := c_exited c; c_emitted := c_emitted c; c_slept := c_slept c |}.
+Definition with_effects (c : ctx) (em : bytes) (sl : Z) : ctx :=
+  {| c_args := c_args c; c_environ := c_environ c; c_stdin := c_stdin c; c_stdout_host := c_stdout_host c;
+     c_stderr_host := c_stderr_host c; c_rand := c_rand c; c_wall := c_wall c; c_wall_res := c_wall_res c; c_mono := c_mono c;
+     c_mono_res := c_mono_res c; c_sleep_real := c_sleep_real c; c_yield_real := c_yield_real c; c_preopens := c_preopens c;
+     c_listeners := c_listeners c; c_fds := c_fds c; c_exited := c_exited c; c_emitted := em; c_slept := sl |}.
+(* the descriptor table and the exit state *)
+Definition with_table (c : ctx) (fds : list Z) (ex : option Z) : ctx :=
+  {| c_args := c_args c; c_environ := c_environ c; c_stdin := c_stdin c; c_stdout_host := c_stdout_host c;
+     c_stderr_host := c_stderr_host c; c_rand := c_rand c; c_wall := c_wall c; c_wall_res := c_wall_res c; c_mono := c_mono c;
+     c_mono_res := c_mono_res c; c_sleep_real := c_sleep_real c; c_yield_real := c_yield_real c; c_preopens := c_preopens c;
+     c_listeners := c_listeners c; c_fds := fds; c_exited := ex; c_emitted := c_emitted c; c_slept := c_slept c |}.
+
+Definition total_size (l : list bytes) : Z := fold_right (fun b a => Z.of_nat (length b) + 1 + a) 0 l.
+Definition nul_terminated (l : list bytes) : bytes := flat_map (fun b => b ++ [0]) l.
+
+(* ---- the descriptor table (internal/descriptor.Table through FSContext.LookupFile): a set of numbers ---- *)
+Definition fd_in (fds : list Z) (fd : Z) : bool := existsb (Z.eqb fd) fds.
+Definition fd_remove (fds : list Z) (fd : Z) : list Z := filter (fun x => negb (x =? fd)) fds.
+Definition is_open (c : ctx) (fd : Z) : bool := fd_in (c_fds c) fd.
+
+(* what a descriptor number (already an int32) denotes: nothing; the always-EOF stdin (noopStdinFile); a discarding
+   stdout/stderr (noopStdoutFile); or something the model does not describe *)
+Inductive fdk := KClosed | KStdin | KStdout | KOther.
+Definition fd_kind (c : ctx) (fd : Z) : fdk :=
+  if negb (is_open c fd) then KClosed
+  else if fd =? FdStdin then match c_stdin c with StdinEOF => KStdin | StdinData _ => KOther end
+  else if fd =? FdStdout then (if c_stdout_host c then KOther else KStdout)
+  else if fd =? FdStderr then (if c_stderr_host c then KOther else KStdout)
+  else KOther.
+
+(* a call that only looks the descriptor up: [closed] when it is not open, [stdio] on a no-op stdio file *)
+Definition on_fd (c : ctx) (fd : Z) (closed stdio : result) : ctx * result :=
+  match fd_kind c (swrap 32 fd) with
+  | KClosed => (c, closed)
+  | KStdin | KStdout => (c, stdio)
+  | KOther => (c, unmodelled)
+  end.
+
+(* ---- atPath (fs.go): path.Clean, then fs.ValidPath (EPERM), then the descriptor (EBADF), then IsDir (ENOTDIR) ----
+   For ASCII paths ValidPath (Clean p) holds iff p is not rooted and never climbs above its starting directory. *)
+Definition elem_step (cur : bytes) (depth : Z) : option Z :=
+  if (Z.of_nat (length cur) =? 0) then Some depth
+  else if (Z.of_nat (length cur) =? 1) && (nth 0 cur 0 =? 46) then Some depth
+  else if (Z.of_nat (length cur) =? 2) && (nth 0 cur 0 =? 46) && (nth 1 cur 0 =? 46)
+       then (if depth =? 0 then None else Some (depth - 1))
+  else Some (depth + 1).
+
+Fixpoint path_scan (p cur : bytes) (depth : Z) : bool :=
+  match p with
+  | [] => match elem_step cur depth with None => false | Some _ => true end
+  | b :: r => if b =? 47 then match elem_step cur depth with None => false | Some d => path_scan r [] d end
+              else path_scan r (cur ++ [b]) depth
+  end.
+
+Definition path_ok (p : bytes) : bool :=
+  match p with
+  | b :: _ => if b =? 47 then false else path_scan p [] 0
+  | [] => true                     (* Clean "" = "." *)
+  end.
+
+Definition ascii (p : bytes) : bool := forallb (fun b => (0 <=? b) && (b <? 128)) p.
+
+Definition at_path (c : ctx) (fd : Z) (p : bytes) : ctx * result :=
+  if negb (ascii p) then (c, unmodelled)            (* ValidPath also wants UTF-8: outside the model *)
+  else if negb (path_ok p) then (c, (ErrnoPerm, []))
+  else on_fd c fd (ErrnoBadf, []) (ErrnoNotdir, []).
+
+(* ---- iovec loops (readv / writev of fs.go) ---- *)
+Definition all_zero (lens : list nat) : bool := forallb (fun n => Nat.eqb n 0) lens.
+Definition all_empty (chunks : list bytes) : bool := forallb (fun b => Nat.eqb (length b) 0) chunks.
+
+(* reading [rest] into buffers of the given lengths: zero-length buffers are skipped, a short read ends the loop *)
+Fixpoint readv (lens : list nat) (rest : bytes) : bytes * bytes :=
+  match lens with
+  | [] => ([], rest)
+  | O :: r => readv r rest
+  | n :: r => let got := firstn n rest in
+              let rest' := skipn n rest in
+              if (length got <? n)%nat then (got, rest')
+              else let '(g, rest'') := readv r rest' in (got ++ g, rest'')
+  end.
+
+(* ---- toTimes (fs.go): which timestamps fd/path_filestat_set_times would set; "now" READS THE WALL CLOCK ---- *)
+Definition has (fl m : Z) : bool := negb (Z.land fl m =? 0).
+
 Definition read_clock (c : clock) : Z * clock :=
   match c with
   | FakeClock t => (t, FakeClock (swrap 64 (t + ms)))
   | RealClock f k => (f k, RealClock f (S k))
   end.
+
+(* the wall clock afterwards and the errno (0 or EINVAL).  A second reading happens only when the first one gave 0. *)
+Definition to_times (w : clock) (fstflags : Z) : clock * Z :=
+  let fl := wrap 16 fstflags in
+  if has fl FstflagsAtim && has fl FstflagsAtimNow then (w, ErrnoInval) else
+  let '(now, w1) := if has fl FstflagsAtimNow then read_clock w else (0, w) in
+  if has fl FstflagsMtim && has fl FstflagsMtimNow then (w1, ErrnoInval) else
+  if has fl FstflagsMtimNow && (now =? 0) then (snd (read_clock w1), 0) else (w1, 0).
 
 Fixpoint take_stream (s : nat -> Z) (pos : nat) (n : nat) : bytes :=
   match n with O => [] | S k => s pos :: take_stream s (S pos) k end.
@@ -160,103 +348,54 @@ Definition read_rand (r : rnd) (n : nat) : bytes * rnd :=
   | RealRand s pos => (take_stream s pos n, RealRand s (pos + n))
   end.
 
-(* one subscription of poll_oneoff: a relative/absolute clock, fd_read, fd_write, or an unknown event type *)
-Inductive sub :=
-| SClock (timeout flags userdata : Z)
-| SFdRead (fd userdata : Z)
-| SFdWrite (fd userdata : Z)
-| SOther (ty userdata : Z).
-
-Inductive call :=
-| ClockTimeGet (id precision : Z)
-| ClockResGet (id : Z)
-| RandomGet (n : nat)
-| ArgsSizesGet
-| ArgsGet
-| EnvironSizesGet
-| EnvironGet
-| FdRead (fd : Z) (n : nat)
-| FdWrite (fd : Z) (data : bytes)
-| FdPrestatGet (fd : Z)
-| FdFdstatGet (fd : Z)
-| PollClock (clockid timeout flags userdata : Z)
-| Poll (subs : list sub)
-| SchedYield
-| PathOpen (fd : Z).
-
-Definition result := (Z * bytes)%type.      (* WASI errno, bytes written to the result areas *)
-
-Definition with_wall (c : ctx) (w : clock) : ctx :=
-  {| c_args := c_args c; c_environ := c_environ c; c_stdin := c_stdin c; c_stdout_host := c_stdout_host c;
-     c_stderr_host := c_stderr_host c; c_rand := c_rand c; c_wall := w; c_wall_res := c_wall_res c; c_mono := c_mono c;
-     c_mono_res := c_mono_res c; c_sleep_real := c_sleep_real c; c_yield_real := c_yield_real c; c_preopens := c_preopens c;
-     c_listeners := c_listeners c; c_emitted := c_emitted c; c_slept := c_slept c |}.
-Definition with_mono (c : ctx) (w : clock) : ctx :=
-  {| c_args := c_args c; c_environ := c_environ c; c_stdin := c_stdin c; c_stdout_host := c_stdout_host c;
-     c_stderr_host := c_stderr_host c; c_rand := c_rand c; c_wall := c_wall c; c_wall_res := c_wall_res c; c_mono := w;
-     c_mono_res := c_mono_res c; c_sleep_real := c_sleep_real c; c_yield_real := c_yield_real c; c_preopens := c_preopens c;
-     c_listeners := c_listeners c; c_emitted := c_emitted c; c_slept := c_slept c |}.
-Definition with_rand (c : ctx) (r : rnd) : ctx :=
-  {| c_args := c_args c; c_environ := c_environ c; c_stdin := c_stdin c; c_stdout_host := c_stdout_host c;
-     c_stderr_host := c_stderr_host c; c_rand := r; c_wall := c_wall c; c_wall_res := c_wall_res c; c_mono := c_mono c;
-     c_mono_res := c_mono_res c; c_sleep_real := c_sleep_real c; c_yield_real := c_yield_real c; c_preopens := c_preopens c;
-     c_listeners := c_listeners c; c_emitted := c_emitted c; c_slept := c_slept c |}.
-Definition with_stdin (c : ctx) (s : stdin_t) : ctx :=
-  {| c_args := c_args c; c_environ := c_environ c; c_stdin := s; c_stdout_host := c_stdout_host c;
-     c_stderr_host := c_stderr_host c; c_rand := c_rand c; c_wall := c_wall c; c_wall_res := c_wall_res c; c_mono := c_mono c;
-     c_mono_res := c_mono_res c; c_sleep_real := c_sleep_real c; c_yield_real := c_yield_real c; c_preopens := c_preopens c;
-     c_listeners := c_listeners c; c_emitted := c_emitted c; c_slept := c_slept c |}.
-Definition with_effects (c : ctx) (em : bytes) (sl : Z) : ctx :=
-  {| c_args := c_args c; c_environ := c_environ c; c_stdin := c_stdin c; c_stdout_host := c_stdout_host c;
-     c_stderr_host := c_stderr_host c; c_rand := c_rand c; c_wall := c_wall c; c_wall_res := c_wall_res c; c_mono := c_mono c;
-     c_mono_res := c_mono_res c; c_sleep_real := c_sleep_real c; c_yield_real := c_yield_real c; c_preopens := c_preopens c;
-     c_listeners := c_listeners c; c_emitted := em; c_slept := sl |}.
-
-Definition total_size (l : list bytes) : Z := fold_right (fun b a => Z.of_nat (length b) + 1 + a) 0 l.
-Definition nul_terminated (l : list bytes) : bytes := flat_map (fun b => b ++ [0]) l.
-
-(* number of descriptors open at start: stdio + preopens + listeners *)
-Definition nfds (c : ctx) : Z := 3 + Z.of_nat (length (c_preopens c)) + Z.of_nat (c_listeners c).
-
 (* poll_oneoff (poll.go): the subscriptions are scanned in order. Clock and fd_write subscriptions and fd_read on a
    descriptor that is not open are answered at once, in subscription order; fd_read on an open (blocking) descriptor is
    deferred and answered, again in subscription order, after the immediate ones once stdin is ready (the stdin of
-   stdinFileEntry for a nil or plain reader is always ready).  An error inside the scan ends the whole call.
-   [nf] = number of open descriptors, [tmo] = minimum of the clock timeouts so far (int64). *)
+   stdinFileEntry for a nil or plain reader is always ready) — and if stdin itself has been closed the whole call
+   fails with EBADF.  An error inside the scan ends the whole call.
+   [opn] = the descriptor table, [tmo] = minimum of the clock timeouts so far (int64). *)
 Definition poll_event (userdata errno ty : Z) : bytes :=
   le_bytes 8 (wrap 64 userdata) ++ le_bytes 2 errno ++ le_bytes 4 ty ++ le_bytes 18 0.
 
-Fixpoint poll_scan (nf : Z) (subs : list sub) (now deferred : list bytes) (tmo : Z) : Z + (list bytes * list bytes * Z) :=
+Fixpoint poll_scan (opn : Z -> bool) (subs : list sub) (now deferred : list bytes) (tmo : Z) : Z + (list bytes * list bytes * Z) :=
   match subs with
   | [] => inr (now, deferred, tmo)
   | SClock t fl u :: r =>
       let fl := wrap 16 fl in
-      if fl =? 0 then poll_scan nf r (now ++ [poll_event u 0 EventTypeClock]) deferred (Z.min (swrap 64 t) tmo)
+      if fl =? 0 then poll_scan opn r (now ++ [poll_event u 0 EventTypeClock]) deferred (Z.min (swrap 64 t) tmo)
       else if fl =? 1 then inl ErrnoNotsup else inl ErrnoInval
   | SFdRead fd u :: r =>
       let fd := swrap 32 fd in
       if fd <? 0 then inl ErrnoBadf
-      else if fd <? nf then poll_scan nf r now (deferred ++ [poll_event u 0 EventTypeFdRead]) tmo
-      else poll_scan nf r (now ++ [poll_event u ErrnoBadf EventTypeFdRead]) deferred tmo
+      else if opn fd then poll_scan opn r now (deferred ++ [poll_event u 0 EventTypeFdRead]) tmo
+      else poll_scan opn r (now ++ [poll_event u ErrnoBadf EventTypeFdRead]) deferred tmo
   | SFdWrite fd u :: r =>
       let fd := swrap 32 fd in
       if fd <? 0 then inl ErrnoBadf
-      else poll_scan nf r (now ++ [poll_event u (if fd <? nf then ErrnoNotsup else ErrnoBadf) EventTypeFdWrite]) deferred tmo
+      else poll_scan opn r (now ++ [poll_event u (if opn fd then ErrnoNotsup else ErrnoBadf) EventTypeFdWrite]) deferred tmo
   | SOther _ _ :: _ => inl ErrnoInval
   end.
 
-(* errno, bytes at result.nevents followed by the nsubscriptions*32 bytes of the (zeroed) event area, nanoseconds slept *)
-Definition poll_result (nf : Z) (subs : list sub) : Z * bytes * Z :=
+Definition is_clock_sub (s : sub) : bool := match s with SClock _ _ _ => true | _ => false end.
+
+(* errno, bytes at result.nevents followed by the nsubscriptions*32 bytes of the (zeroed) event area, nanoseconds slept
+   (only a clock subscription supplies a timeout to sleep for) *)
+Definition poll_result (opn : Z -> bool) (subs : list sub) : Z * bytes * Z :=
   match subs with
   | [] => (ErrnoInval, [], 0)
   | _ =>
-    match poll_scan nf subs [] [] (2 ^ 63 - 1) with
+    match poll_scan opn subs [] [] (2 ^ 63 - 1) with
     | inl e => (e, [], 0)
     | inr (now, deferred, tmo) =>
         let evs := now ++ deferred in
         let area := concat evs in
-        (0, le_bytes 4 (Z.of_nat (length evs)) ++ area ++ repeat 0 (32 * length subs - length area)%nat,
-         match deferred with [] => (if 0 <? tmo then tmo else 0) | _ => 0 end)
+        match deferred with
+        | [] => (0, le_bytes 4 (Z.of_nat (length evs)) ++ area ++ repeat 0 (32 * length subs - length area)%nat,
+                 if existsb is_clock_sub subs && (0 <? tmo) then tmo else 0)
+        | _ => if opn FdStdin
+               then (0, le_bytes 4 (Z.of_nat (length evs)) ++ area ++ repeat 0 (32 * length subs - length area)%nat, 0)
+               else (ErrnoBadf, [], 0)
+        end
     end
   end.
 
@@ -265,7 +404,16 @@ Definition poll_result (nf : Z) (subs : list sub) : Z * bytes * Z :=
 Definition stdio_fdstat : bytes :=
   le_bytes 2 FILETYPE_BLOCK_DEVICE ++ le_bytes 2 0 ++ le_bytes 4 0 ++ le_bytes 8 fileRightsBase ++ le_bytes 8 0.
 
-Definition wasi_step (c : ctx) (k : call) : ctx * result :=
+(* fd_filestat_get of a stdio descriptor: noopStdioFile.Stat is Stat_t{Mode: ModeDevice|0640, Nlink: 1}: device 0,
+   inode 0, block device, one link, size 0, all three timestamps 0 — nothing of the host *)
+Definition stdio_filestat : bytes :=
+  le_bytes 8 0 ++ le_bytes 8 0 ++ le_bytes 8 FILETYPE_BLOCK_DEVICE ++ le_bytes 8 1 ++ le_bytes 8 0 ++
+  le_bytes 8 0 ++ le_bytes 8 0 ++ le_bytes 8 0.
+
+Definition bad : result := (ErrnoBadf, []).
+
+(* a call of an instance that has not exited *)
+Definition wasi_live (c : ctx) (k : call) : ctx * result :=
   match k with
   | ClockTimeGet id _ =>
       let id := wrap 32 id in
@@ -282,32 +430,86 @@ Definition wasi_step (c : ctx) (k : call) : ctx * result :=
   | ArgsGet => (c, (0, nul_terminated (c_args c)))
   | EnvironSizesGet => (c, (0, le_bytes 4 (Z.of_nat (length (c_environ c))) ++ le_bytes 4 (total_size (c_environ c))))
   | EnvironGet => (c, (0, nul_terminated (c_environ c)))
-  | FdRead fd n =>
+  | FdRead fd lens =>
+      (* readv over File.Read: EOF stdin gives 0 bytes; stdout/stderr have no Read (ENOSYS, reported as EBADF) but are
+         only asked when some buffer is not empty *)
       let fd := swrap 32 fd in
-      if fd =? 0 then
+      if negb (is_open c fd) then (c, bad)
+      else if fd =? FdStdin then
         match c_stdin c with
         | StdinEOF => (c, (0, le_bytes 4 0))
-        | StdinData rest => (with_stdin c (StdinData (skipn n rest)),
-                             (0, le_bytes 4 (Z.of_nat (length (firstn n rest))) ++ firstn n rest))
+        | StdinData rest => let '(got, rest') := readv lens rest in
+                            (with_stdin c (StdinData rest'), (0, le_bytes 4 (Z.of_nat (length got)) ++ got))
         end
-      else (c, (ErrnoBadf, []))      (* stdout/stderr are not readable (ENOSYS reported as EBADF); nothing else is open *)
-  | FdWrite fd data =>
+      else if (fd =? FdStdout) || (fd =? FdStderr) then (c, if all_zero lens then (0, le_bytes 4 0) else bad)
+      else (c, unmodelled)
+  | FdWrite fd chunks =>
+      (* writev over File.Write: every ciovec, even an empty one, is handed to the file; stdin has no Write *)
       let fd := swrap 32 fd in
-      if (fd =? 1) || (fd =? 2) then
-        let host := if fd =? 1 then c_stdout_host c else c_stderr_host c in
-        (with_effects c (if host then c_emitted c ++ data else c_emitted c) (c_slept c),
-         (0, le_bytes 4 (Z.of_nat (length data))))
-      else (c, (ErrnoBadf, []))
+      if negb (is_open c fd) then (c, bad)
+      else if fd =? FdStdin then (c, match chunks with [] => (0, le_bytes 4 0) | _ => bad end)
+      else if (fd =? FdStdout) || (fd =? FdStderr) then
+        let host := if fd =? FdStdout then c_stdout_host c else c_stderr_host c in
+        (with_effects c (if host then c_emitted c ++ concat chunks else c_emitted c) (c_slept c),
+         (0, le_bytes 4 (wrap 32 (Z.of_nat (length (concat chunks))))))
+      else (c, unmodelled)
+  | FdPread fd lens _ =>
+      (* no stdio file has Pread: ENOSYS (reported as EBADF) as soon as a buffer is not empty *)
+      on_fd c fd bad (if all_zero lens then (0, le_bytes 4 0) else bad)
+  | FdPwrite fd chunks _ =>
+      on_fd c fd bad (if all_empty chunks then (0, le_bytes 4 0) else bad)
   | FdPrestatGet fd =>
       let fd := swrap 32 fd in
-      if (0 <=? fd) && (fd <? 3) then (c, (0, le_bytes 8 0))     (* stdio entries are flagged pre-open, not directories *)
+      if negb (is_open c fd) then (c, bad)
+      else if (0 <=? fd) && (fd <? 3) then (c, (0, le_bytes 8 0))     (* stdio entries are flagged pre-open, not directories *)
       else if (3 <=? fd) && (fd <? 3 + Z.of_nat (length (c_preopens c)))
       then (c, (0, le_bytes 4 0 ++ le_bytes 4 (Z.of_nat (length (nth (Z.to_nat (fd - 3)) (c_preopens c) [])))))
-      else (c, (ErrnoBadf, []))
-  | FdFdstatGet fd =>
+      else (c, bad)
+  | FdPrestatDirName fd len =>
       let fd := swrap 32 fd in
-      if (0 <=? fd) && (fd <? 3) then (c, (0, stdio_fdstat))
-      else (c, (ErrnoBadf, []))      (* only meaningful without preopens: used under the default configuration *)
+      let len := wrap 32 len in
+      if negb (is_open c fd) then (c, bad)
+      else if (0 <=? fd) && (fd <? 3) then (c, if 0 <? len then (ErrnoNametoolong, []) else (0, []))   (* the name is "" *)
+      else if (3 <=? fd) && (fd <? 3 + Z.of_nat (length (c_preopens c)))
+      then let name := nth (Z.to_nat (fd - 3)) (c_preopens c) [] in
+           (c, if Z.of_nat (length name) <? len then (ErrnoNametoolong, []) else (0, firstn (Z.to_nat len) name))
+      else (c, bad)
+  | FdFdstatGet fd => on_fd c fd bad (0, stdio_fdstat)
+  | FdFdstatSetFlags fd flags =>
+      let fl := wrap 16 flags in
+      if has fl FD_DSYNC || has fl FD_RSYNC || has fl FD_SYNC then (c, (ErrnoInval, []))
+      else on_fd c fd bad (ErrnoNosys, [])                        (* noopStdioFile.SetNonblock *)
+  | FdFdstatSetRights _ _ _ => (c, (ErrnoNosys, []))               (* stub *)
+  | FdFilestatGet fd => on_fd c fd bad (0, stdio_filestat)
+  | FdFilestatSetSize fd _ => on_fd c fd bad (ErrnoNosys, [])     (* Truncate *)
+  | FdFilestatSetTimes fd _ _ fstflags =>
+      match fd_kind c (swrap 32 fd) with
+      | KClosed => (c, bad)
+      | KOther => (c, unmodelled)
+      | _ => let '(w, e) := to_times (c_wall c) fstflags in
+             (with_wall c w, (if e =? 0 then ErrnoNosys else e, []))   (* Utimens; there is no file system to fall back to *)
+      end
+  | FdAdvise fd _ _ advice =>
+      on_fd c fd bad (if wrap 8 advice <=? FdAdviceNoReuse then 0 else ErrnoInval, [])
+  | FdAllocate fd off len =>
+      let tail := swrap 64 (wrap 64 off + wrap 64 len) in
+      on_fd c fd bad (if tail <? 0 then ErrnoInval else if tail <=? 0 then 0 else ErrnoNosys, [])   (* size 0; Truncate *)
+  | FdClose fd =>
+      match fd_kind c (swrap 32 fd) with
+      | KClosed => (c, bad)
+      | KOther => (c, unmodelled)
+      | _ => (with_table c (fd_remove (c_fds c) (swrap 32 fd)) (c_exited c), (0, []))
+      end
+  | FdDatasync fd => on_fd c fd bad (0, [])
+  | FdSync fd => on_fd c fd bad (0, [])
+  | FdReaddir fd buflen _ =>
+      if wrap 32 buflen <? DirentSize then (c, (ErrnoInval, []))
+      else on_fd c fd bad bad                                    (* not a directory: ENOTDIR is reported as EBADF *)
+  | FdRenumber from to =>
+      (* stdio entries are pre-opens: never renumbered, never replaced *)
+      on_fd c from bad (if swrap 32 to <? 0 then ErrnoBadf else ErrnoNotsup, [])
+  | FdSeek fd _ _ => on_fd c fd bad (ErrnoNosys, [])
+  | FdTell fd => on_fd c fd bad (ErrnoNosys, [])
   | PollClock clockid timeout flags userdata =>
       let flags := wrap 16 flags in
       if flags =? 0 then
@@ -317,13 +519,35 @@ Definition wasi_step (c : ctx) (k : call) : ctx * result :=
       else if flags =? 1 then (c, (ErrnoNotsup, []))
       else (c, (ErrnoInval, []))
   | Poll subs =>
-      let '(e, out, sl) := poll_result (nfds c) subs in
+      let '(e, out, sl) := poll_result (is_open c) subs in
       (with_effects c (c_emitted c) (if c_sleep_real c then c_slept c + sl else c_slept c), (e, out))
   | SchedYield => (c, (0, []))
-  | PathOpen fd =>
-      let fd := swrap 32 fd in
-      if (0 <=? fd) && (fd <? 3) then (c, (ErrnoNotdir, []))
-      else (c, (ErrnoBadf, []))      (* without preopens there is no directory descriptor *)
+  | PathOpen fd p => at_path c fd p
+  | PathCreateDirectory fd p => at_path c fd p
+  | PathFilestatGet fd _ p => at_path c fd p
+  | PathFilestatSetTimes fd _ p _ _ fstflags =>
+      (* toTimes runs BEFORE the descriptor is looked at *)
+      let '(w, e) := to_times (c_wall c) fstflags in
+      if e =? 0 then let '(_, r) := at_path c fd p in (with_wall c w, r) else (with_wall c w, (e, []))
+  | PathLink oldfd _ oldp _ _ => at_path c oldfd oldp
+  | PathReadlink fd p buflen =>
+      if (Z.of_nat (length p) =? 0) || (wrap 32 buflen =? 0) then (c, (ErrnoInval, [])) else at_path c fd p
+  | PathRemoveDirectory fd p => at_path c fd p
+  | PathRename fd oldp _ _ => at_path c fd oldp
+  | PathSymlink _ fd _ => on_fd c fd bad (ErrnoNotdir, [])
+  | PathUnlinkFile fd p => at_path c fd p
+  | ProcExit code => (with_table c [] (Some (wrap 32 code)), (res_exit, le_bytes 4 (wrap 32 code)))
+  | ProcRaise _ => (c, (ErrnoNosys, []))                           (* stub *)
+  | SockAccept fd _ => on_fd c fd bad bad                          (* not a listener *)
+  | SockRecv fd _ _ => on_fd c fd bad bad                          (* not a connection *)
+  | SockSend fd _ siflags => if wrap 32 siflags =? 0 then on_fd c fd bad bad else (c, (ErrnoNotsup, []))
+  | SockShutdown fd _ => on_fd c fd bad bad
+  end.
+
+Definition wasi_step (c : ctx) (k : call) : ctx * result :=
+  match c_exited c with
+  | Some code => (c, (res_closed, le_bytes 4 code))
+  | None => wasi_live c k
   end.
 
 Fixpoint trace (c : ctx) (ks : list call) : list result :=
@@ -355,10 +579,62 @@ Fixpoint run_multi (cs : list ctx) (sched : list (nat * call)) : list (nat * res
 Definition proj {A} (i : nat) (l : list (nat * A)) : list A :=
   map snd (filter (fun e => Nat.eqb (fst e) i) l).
 
-(* which calls read which clock *)
-Definition reads_wall (k : call) : bool := match k with ClockTimeGet id _ => wrap 32 id =? ClockIDRealtime | _ => false end.
-Definition reads_mono (k : call) : bool := match k with ClockTimeGet id _ => wrap 32 id =? ClockIDMonotonic | _ => false end.
-Definition count (f : call -> bool) (ks : list call) : Z := Z.of_nat (length (filter f ks)).
+(* ---- the descriptor table as a function of the calls alone ----
+   None: the instance has exited (its table is gone).  Nothing ever ADDS a descriptor: without a directory there is
+   nothing path_open could open, without a listener nothing sock_accept could accept, and the stdio entries, being
+   pre-opens, cannot be renumbered. *)
+Definition tbl := option (list Z).
+Definition tbl_step (t : tbl) (k : call) : tbl :=
+  match t with
+  | None => None
+  | Some fds => match k with
+                | ProcExit _ => None
+                | FdClose fd => Some (fd_remove fds (swrap 32 fd))
+                | _ => Some fds
+                end
+  end.
+Definition ctx_tbl (c : ctx) : tbl := match c_exited c with Some _ => None | None => Some (c_fds c) end.
+Definition tbl_after (ks : list call) : tbl := fold_left tbl_step ks (Some [0; 1; 2]).
+
+(* which calls read which clock: clock_time_get, and fd/path_filestat_set_times with a "now" flag (one reading: the
+   second timestamp re-uses the first reading unless that was 0) *)
+Definition times_reads (fstflags : Z) : bool :=
+  let fl := wrap 16 fstflags in
+  if has fl FstflagsAtim && has fl FstflagsAtimNow then false
+  else if has fl FstflagsAtimNow then true
+  else if has fl FstflagsMtim && has fl FstflagsMtimNow then false
+  else has fl FstflagsMtimNow.
+
+Definition reads_wall (t : tbl) (k : call) : bool :=
+  match t with
+  | None => false
+  | Some fds =>
+      match k with
+      | ClockTimeGet id _ => wrap 32 id =? ClockIDRealtime
+      | FdFilestatSetTimes fd _ _ fl => fd_in fds (swrap 32 fd) && times_reads fl
+      | PathFilestatSetTimes _ _ _ _ _ fl => times_reads fl
+      | _ => false
+      end
+  end.
+Definition reads_mono (t : tbl) (k : call) : bool :=
+  match t with
+  | None => false
+  | Some _ => match k with ClockTimeGet id _ => wrap 32 id =? ClockIDMonotonic | _ => false end
+  end.
+(* number of calls of [ks], started with table [t], for which [f] holds *)
+Fixpoint count (f : tbl -> call -> bool) (t : tbl) (ks : list call) : Z :=
+  match ks with
+  | [] => 0
+  | k :: r => (if f t k then 1 else 0) + count f (tbl_step t k) r
+  end.
+
+(* every path argument of the call is ASCII (the model's atPath is stated for ASCII paths) *)
+Definition ascii_call (k : call) : bool :=
+  match k with
+  | PathOpen _ p | PathCreateDirectory _ p | PathFilestatGet _ _ p | PathFilestatSetTimes _ _ p _ _ _
+  | PathLink _ _ p _ _ | PathReadlink _ p _ | PathRemoveDirectory _ p | PathRename _ p _ _ | PathUnlinkFile _ p => ascii p
+  | _ => true
+  end.
 
 End Wasi.
 
@@ -366,14 +642,15 @@ End Wasi.
 Definition hermetic (c : ctx) : Prop :=
   c_args c = [] /\ c_environ c = [] /\ c_stdin c = StdinEOF /\ c_stdout_host c = false /\ c_stderr_host c = false /\
   (exists p, c_rand c = FakeRand p) /\ (exists t, c_wall c = FakeClock t) /\ (exists t, c_mono c = FakeClock t) /\
-  c_sleep_real c = false /\ c_yield_real c = false /\ c_preopens c = [] /\ c_listeners c = O.
+  c_sleep_real c = false /\ c_yield_real c = false /\ c_preopens c = [] /\ c_listeners c = O /\
+  forallb (fun fd => (0 <=? fd) && (fd <? 3)) (c_fds c) = true.      (* only stdio descriptors are open *)
 
 (* the initial context of every default instance, spelled out *)
 Definition default_ctx : ctx :=
   {| c_args := []; c_environ := []; c_stdin := StdinEOF; c_stdout_host := false; c_stderr_host := false;
      c_rand := FakeRand 0; c_wall := FakeClock 1640995200000000000; c_wall_res := 1000;
      c_mono := FakeClock 0; c_mono_res := 1; c_sleep_real := false; c_yield_real := false;
-     c_preopens := []; c_listeners := O; c_emitted := []; c_slept := 0 |}.
+     c_preopens := []; c_listeners := O; c_fds := [0; 1; 2]; c_exited := None; c_emitted := []; c_slept := 0 |}.
 
 (* ------------------------------------------------------------------------------------------ *)
 (* correspondence cases: the oracle stream is a list (bytes beyond it read as -1 and never match) *)
